@@ -3,20 +3,26 @@ C01 — BibTeX (.bib) parsing is faithful and independent of surface syntax.
 
 Property theorems only.  The model of the reader is `Model/BibParse.lean`, the reference notions
 (abstract documents `ADoc`, the denotation `denote`, layouts and `render`, the well-formedness
-predicate `WF`) are in `Spec/Bib.lean`, the printer/parser lemmas in `Lemmas/BibRoundTrip.lean`
-and `Lemmas/BibProcess.lean`.
+predicate `WF`, and for documents that may repeat field names and keys `WFD`, `denoteD`,
+`reports`) are in `Spec/Bib.lean`, the printer/parser lemmas in `Lemmas/BibRoundTrip.lean`,
+`Lemmas/BibProcess.lean` and (strict mode from continue mode) `Lemmas/BibBefore.lean`.
 
 The resulting line number is quantified existentially: no error is reported on a well-formed
 document, so it is not observable here (line numbers are the subject of C10).
 -/
 import PybtexModel.Lemmas.BibRoundTrip
+import PybtexModel.Lemmas.BibBefore
+import PybtexModel.Lemmas.BibNorm
+import PybtexModel.Lemmas.UniCase
+import PybtexModel.Lemmas.BibSplitPoints
 
 namespace Pybtex.Props
 open Pybtex Pybtex.Bib Pybtex.BibSpec
 
 /-! ### the example used by the non-vacuity instances: both delimiters, a
 macro # literal # month concatenation, quoted / braced / bare-number literals, an author field,
-`@string`, `@preamble`, `@comment`, junk, CR / LF / CRLF / TAB white space, case masks -/
+`@string`, `@preamble`, `@comment`, junk, CR / LF / CRLF / TAB white space, case masks, and two
+field-less entries: one without the comma (`@x{k3}`) and one with it (`@x(k4 , )`) -/
 
 def c01Doc : ADoc := [
   .junk "free text, = { } \" #\n".toList,
@@ -28,7 +34,9 @@ def c01Doc : ADoc := [
      ("journal".toList, [.macro "jv".toList, .lit " x ".toList, .macro "jan".toList]),
      ("year".toList, [.lit "1993".toList]),
      ("AUTHOR".toList, [.lit "Knuth, Donald E. and Leslie Lamport".toList])],
-  .entry "misc".toList "k)".toList [("note".toList, [.lit "q {\"} q".toList])]]
+  .entry "misc".toList "k)".toList [("note".toList, [.lit "q {\"} q".toList])],
+  .entry "x".toList "k3".toList [],
+  .entry "x".toList "k4".toList []]
 
 def c01Layout : Layout := [
   {},
@@ -50,7 +58,9 @@ def c01Layout : Layout := [
       { beforeName := "\n".toList, pieces := [{ spelling := .bare }] },
       { beforeName := " ".toList, afterEq := " ".toList, pieces := [{}], afterValue := "\n".toList }],
     trailing := true, afterTrailing := "\n".toList, afterClose := "\n".toList },
-  { paren := true, fields := [{ beforeName := " ".toList, pieces := [{}] }] }]
+  { paren := true, fields := [{ beforeName := " ".toList, pieces := [{}] }], afterClose := "\n".toList },
+  { afterClose := "\n".toList },
+  { paren := true, afterKey := " ".toList, trailing := true, afterTrailing := " ".toList }]
 
 /- The example renders to (checked by evaluation; CR shown as \r):
 free text, = { } " #
@@ -68,6 +78,8 @@ year=1993, AUTHOR= {Knuth, Donald E. and Leslie Lamport}
 ,
 }
 @misc(k), note={q {"} q})
+@x{k3}
+@x(k4 , )
 -/
 
 /-! ### stage 2: values -/
@@ -222,10 +234,83 @@ theorem C01_entry_roundtrip_nonvacuous :
     let m1 := stepMacros initMacros (c01Doc.getD 1 (.junk []))
     cmdOk m1 [] (c01Doc.getD 4 (.junk [])) (c01Layout.getD 4 {}) = true ∧
     cmdOk m1 ["key1".toList] (c01Doc.getD 5 (.junk [])) (c01Layout.getD 5 {}) = true ∧
-    renderCmd (c01Doc.getD 5 (.junk [])) (c01Layout.getD 5 {}) = "@misc(k), note={q {\"} q})".toList := by
+    renderCmd (c01Doc.getD 5 (.junk [])) (c01Layout.getD 5 {}) = "@misc(k), note={q {\"} q})\n".toList := by
+  decide +kernel
+
+/-- the two spellings of a field-less entry: without the comma (`trailing := false`) and with it;
+in parentheses without the comma white space has to follow the key (`@x(k4)` would be read as
+the key `k4)`: not well-formed, `bareKeyOk`) -/
+theorem C01_entry_roundtrip_fieldless_nonvacuous :
+    cmdOk initMacros [] (c01Doc.getD 6 (.junk [])) (c01Layout.getD 6 {}) = true ∧
+    renderCmd (c01Doc.getD 6 (.junk [])) (c01Layout.getD 6 {}) = "@x{k3}\n".toList ∧
+    cmdOk initMacros [] (c01Doc.getD 7 (.junk [])) (c01Layout.getD 7 {}) = true ∧
+    renderCmd (c01Doc.getD 7 (.junk [])) (c01Layout.getD 7 {}) = "@x(k4 , )".toList ∧
+    renderCmd (.entry "x".toList "k4".toList []) { paren := true, afterKey := " ".toList } = "@x(k4 )".toList ∧
+    cmdOk initMacros [] (.entry "x".toList "k4".toList []) { paren := true, afterKey := " ".toList } = true ∧
+    renderCmd (.entry "x".toList "k4".toList []) { paren := true } = "@x(k4)".toList ∧
+    cmdOk initMacros [] (.entry "x".toList "k4".toList []) { paren := true } = false := by
   decide +kernel
 
 /-! ### stage 4: whole documents -/
+
+/-! the example for documents that repeat identifiers: a field named twice in different case
+(`T` / `t`), a key used twice in different case (`Key` / `kEY`), a duplicate field inside the dropped
+entry (`v`, written `V` by the layout's case mask, and `V`), and a field-less entry -/
+
+def c01DupDoc : ADoc := [
+  .entry "a".toList "Key".toList [
+    ("T".toList, [.lit "1".toList]), ("t".toList, [.lit "2".toList]), ("u".toList, [.lit "3".toList])],
+  .entry "b".toList "kEY".toList [("v".toList, [.lit "4".toList]), ("V".toList, [.lit "5".toList])],
+  .entry "c".toList "other".toList []]
+
+def c01DupLayout : Layout := [
+  { fields := [{}, {}, {}], afterClose := "\n".toList },
+  { fields := [{ mask := [.up] }, {}], afterClose := "\n".toList },
+  {}]
+
+/-- **Faithfulness, repeated identifiers included.**  `WFD d L` is `WF d L` without "no two entries
+have the same key and no entry has two fields of the same name (up to case)".  For every such
+document and layout, reading `render d L` without a wanted-set gives
+(continue mode) no exception, exactly the reports `reports (written d L)` in document order — per
+entry one `DuplicateField` report (entry key, field name as written, no line) for every field whose
+name equals an earlier one of the entry up to case, then, if the key equals the key of an earlier
+entry up to case, one `repeated bibliography entry` report — and exactly the database
+`denoteD (written d L)`: the first entry of every key, each with the first field of every name;
+(strict mode) the same result when there is nothing to report, and otherwise the first report is
+raised. -/
+theorem C01_faithful_dups (d : ADoc) (L : Layout) (h : WFD d L) :
+    ((parseBib (render d L) false none).2 = none ∧
+     (parseBib (render d L) false none).1.errs = reports (written d L) ∧
+     (parseBib (render d L) false none).1.db =
+       { entries := (denoteD (written d L)).entries, preamble := (denoteD (written d L)).preamble }) ∧
+    (reports (written d L) = [] →
+      (parseBib (render d L) true none).2 = none ∧
+      (parseBib (render d L) true none).1.errs = [] ∧
+      (parseBib (render d L) true none).1.db =
+        { entries := (denoteD (written d L)).entries, preamble := (denoteD (written d L)).preamble }) ∧
+    (∀ e tl, reports (written d L) = e :: tl → (parseBib (render d L) true none).2 = some e) := by
+  refine ⟨?_, BibRT.parseBib_strictD d L h⟩
+  obtain ⟨s', m', keys', h1, hinv⟩ := BibRT.parseBib_faithfulD d L false h (fun hs => by cases hs)
+  rw [h1]
+  exact ⟨rfl, hinv.errs, hinv.db_eq⟩
+
+/-- the example is `WFD` but not `WF`; its rendering, its reports (the duplicate field of the
+dropped entry comes before the report about its key), what it denotes, and the reader run on it -/
+theorem C01_faithful_dups_nonvacuous :
+    WFD c01DupDoc c01DupLayout ∧ ¬ WF c01DupDoc c01DupLayout ∧
+    render c01DupDoc c01DupLayout = "@a{Key,T={1},t={2},u={3}}\n@b{kEY,V={4},V={5}}\n@c{other}".toList ∧
+    reports (written c01DupDoc c01DupLayout) =
+      [⟨.duplicateField "Key".toList "t".toList, none⟩, ⟨.duplicateField "kEY".toList "V".toList, none⟩,
+       ⟨.repeatedEntry "kEY".toList, none⟩] ∧
+    (denoteD (written c01DupDoc c01DupLayout)).entries.map (fun e => (e.key, e.origType, e.fields)) =
+      [("Key".toList, "a".toList, [("T".toList, "1".toList), ("u".toList, "3".toList)]),
+       ("other".toList, "c".toList, [])] ∧
+    -- the reader evaluated on the rendering (what the theorem says about this instance)
+    (parseBib (render c01DupDoc c01DupLayout) false none).1.errs = reports (written c01DupDoc c01DupLayout) ∧
+    (parseBib (render c01DupDoc c01DupLayout) false none).1.db.entries.map (fun e => (e.key, e.fields)) =
+      [("Key".toList, [("T".toList, "1".toList), ("u".toList, "3".toList)]), ("other".toList, [])] ∧
+    (parseBib (render c01DupDoc c01DupLayout) true none).2 = some ⟨.duplicateField "Key".toList "t".toList, none⟩ := by
+  decide +kernel
 
 /-- **Faithfulness.**  For every abstract document `d` and every layout `L` with `WF d L`, reading
 the text `render d L` (in either error mode, no wanted-set) raises nothing, reports nothing, and
@@ -234,23 +319,20 @@ writes them (`written d L` applies the layout's case masks to entry types and fi
 only identifiers a database stores): every entry with key, type, fields in source order (values
 expanded, concatenated and white-space-normalised), persons split per role, and the preamble
 list.  Junk, `@comment` blocks, the delimiter pair, literal spellings, macro-name case, white
-space / line ends and trailing commas are all chosen by `L` and do not appear in the result. -/
+space / line ends and trailing commas (also the comma of a field-less entry: `@a{k,}` / `@a{k}`) are
+all chosen by `L` and do not appear in the result.
+(A corollary of `C01_faithful_dups`: a `WF` document is `WFD`, gives nothing to report, and
+`denoteD` agrees with `denote` on it.) -/
 theorem C01_faithful (d : ADoc) (L : Layout) (strict : Bool) (h : WF d L) :
     (parseBib (render d L) strict none).2 = none ∧
     (parseBib (render d L) strict none).1.errs = [] ∧
     (parseBib (render d L) strict none).1.db =
       { entries := (denote (written d L)).entries, preamble := (denote (written d L)).preamble } := by
-  obtain ⟨s', m', keys', h1, hinv⟩ := BibRT.parseBib_faithful d L strict h
-  rw [h1]
-  refine ⟨rfl, hinv.errs, ?_⟩
-  have h2 := hinv.entries
-  have h3 := hinv.preamble
-  have h4 := hinv.proc.wanted
-  have h5 := hinv.proc.cit
-  generalize s'.db = db at h2 h3 h4 h5
-  cases db
-  simp only at h2 h3 h4 h5
-  simp only [h2, h3, h4, h5]
+  obtain ⟨hD, hr, hden, _, _⟩ := BibRT.WF_spec d L h
+  have hd := C01_faithful_dups d L hD
+  cases strict with
+  | false => have := hd.1; rw [hr, hden] at this; exact this
+  | true => have := hd.2.1 hr; rw [hden] at this; exact this
 
 theorem C01_faithful_nonvacuous : WF c01Doc c01Layout := by decide +kernel
 
@@ -270,16 +352,17 @@ theorem C01_faithful_plain_nonvacuous :
     plainIds c01Doc c01Layout = false := by
   decide +kernel
 
-/-- what the example denotes (as written): two entries, the preamble, the person list -/
+/-- what the example denotes (as written): four entries, the preamble, the person list -/
 theorem C01_faithful_example :
     (denote (written c01Doc c01Layout)).entries.map (fun e => (e.key, e.origType, e.type)) =
-      [("Key1".toList, "aRticle".toList, "article".toList), ("k)".toList, "misc".toList, "misc".toList)] ∧
+      [("Key1".toList, "aRticle".toList, "article".toList), ("k)".toList, "misc".toList, "misc".toList),
+       ("k3".toList, "x".toList, "x".toList), ("k4".toList, "x".toList, "x".toList)] ∧
     (denote (written c01Doc c01Layout)).entries.map (·.fields) =
       [[("title".toList, "A {B} c".toList), ("JOurnal".toList, "Journal of V x January".toList),
         ("year".toList, "1993".toList)],
-       [("note".toList, "q {\"} q".toList)]] ∧
+       [("note".toList, "q {\"} q".toList)], [], []] ∧
     (denote (written c01Doc c01Layout)).entries.map (fun e => e.persons.map fun r => (r.1, r.2.map Person.toStr)) =
-      [[("AUTHOR".toList, ["Knuth, Donald E.".toList, "Lamport, Leslie".toList])], []] ∧
+      [[("AUTHOR".toList, ["Knuth, Donald E.".toList, "Lamport, Leslie".toList])], [], [], []] ∧
     (denote (written c01Doc c01Layout)).preamble = ["\\newcommand{\\x}{y} February".toList] := by
   decide +kernel
 
@@ -318,6 +401,28 @@ theorem C01_layout_independent_nonvacuous :
     written c01Doc c01Layout ≠ written c01Doc [{}, {}, {}, {}, { fields := [{}, {}, {}, {}] }, { paren := true }] := by
   decide +kernel
 
+/-- **The comma of a field-less entry** (an instance of `C01_layout_independent` (1), stated for the
+record): `@a{k,}` and `@a{k}` — two well-formed layouts of a document that differ in nothing but
+the `trailing` choice (and the white space behind the comma) of its commands — give the same
+database. -/
+theorem C01_fieldless_comma_independent (d : ADoc) (L₁ L₂ : Layout) (strict₁ strict₂ : Bool)
+    (h₁ : WF d L₁) (h₂ : WF d L₂)
+    (hL : L₂.map (fun l => { l with trailing := false, afterTrailing := [] }) =
+          L₁.map (fun l => { l with trailing := false, afterTrailing := [] })) :
+    (parseBib (render d L₁) strict₁ none).1.db = (parseBib (render d L₂) strict₂ none).1.db := by
+  refine (C01_layout_independent d L₁ L₂ strict₁ strict₂ h₁ h₂).1 ?_
+  rw [← BibRT.written_noTrailing d L₁, ← BibRT.written_noTrailing d L₂, hL]
+
+/-- the field-less entry `k3` of the example with and without the comma -/
+theorem C01_fieldless_comma_independent_nonvacuous :
+    let d : ADoc := [.entry "x".toList "k3".toList [], .entry "y".toList "k4".toList []]
+    let L₁ : Layout := [{}, { paren := true, afterKey := " ".toList }]
+    let L₂ : Layout := [{ trailing := true, afterTrailing := "\n".toList }, { paren := true, afterKey := " ".toList, trailing := true }]
+    WF d L₁ ∧ WF d L₂ ∧ render d L₁ = "@x{k3}@y(k4 )".toList ∧ render d L₂ = "@x{k3,\n}@y(k4 ,)".toList ∧
+    L₂.map (fun l => { l with trailing := false, afterTrailing := [] }) =
+      L₁.map (fun l => { l with trailing := false, afterTrailing := [] }) := by
+  decide +kernel
+
 /-- **Junk and comments.**  Two well-formed renderings of two documents that differ only in their
 junk and `@comment` commands (`stripJunk` removes both) give equal databases when the remaining
 commands are spelled alike, and in general databases equal up to the stored spelling of types,
@@ -353,29 +458,34 @@ theorem C01_junk_independent_nonvacuous :
 entries as written (`entriesWith` pairs each with the macro table in force): key as written, type
 as written (`origType`) and lower-cased (`type`), every non-person field under its name as written
 in source order, every person role under its name as written (`entryOf`).
-(2) Identifiers are matched case-insensitively: a macro defined under one spelling is found
-under every spelling equal up to case; a field whose name equals an earlier one of the entry up
-to case is reported (`DuplicateField`) and dropped; an entry whose key equals an earlier one up
-to case is reported (`repeated bibliography entry`) and dropped. -/
+(2) Macro names are matched case-insensitively: a macro defined under one spelling is found
+under every spelling equal up to case.
+(3) Field names and keys are matched case-insensitively, document level: for every `WFD` document
+(keys and field names may repeat) the reader (continue mode) reports exactly `reports` — a field
+whose name equals an earlier one of the entry up to case: `DuplicateField`, dropped; an entry whose
+key equals an earlier one up to case: `repeated bibliography entry`, dropped after its fields
+were processed — and its entries are, in closed form, the FIRST entry command of every key
+(`firstEntries`), each with the FIRST field of every name (`entryOfD` = `entryOf` on `firstFields`),
+under the spellings written. -/
 theorem C01_identifiers :
     (∀ (d : ADoc) (L : Layout) (strict : Bool), WF d L →
       (parseBib (render d L) strict none).1.db.entries =
         (entriesWith initMacros (written d L)).map entryOf) ∧
     (∀ (dict : CIDict Str) (n n' v : Str), lower n = lower n' → (dict.setItem n v).getItem n' = some v) ∧
-    (∀ (key name : Str) (parts : List Str) (fs : List (Str × List Str)) (seen : List Str) (e : Entry) (s : St),
-      s.strict = false → seen.contains (lower name) = true →
-      processFields key ((name, parts) :: fs) seen e s =
-        processFields key fs seen e { s with errs := s.errs ++ [⟨.duplicateField key name, none⟩] }) ∧
-    (∀ (s : St) (key : Str) (e e0 : Entry), s.db.wanted = none → s.strict = false →
-      e0 ∈ s.db.entries → lower e0.key = lower key →
-      addEntry s key e = .ok () { s with errs := s.errs ++ [⟨.repeatedEntry key, none⟩] }) := by
-  refine ⟨?_, ?_, ?_, ?_⟩
+    (∀ (d : ADoc) (L : Layout), WFD d L →
+      (parseBib (render d L) false none).1.errs = reports (written d L) ∧
+      (parseBib (render d L) false none).1.db.entries =
+        (firstEntries [] (entriesWith initMacros (written d L))).map entryOfD) := by
+  refine ⟨?_, ?_, ?_⟩
   · intro d L strict h
     rw [(C01_faithful d L strict h).2.2]
     exact BibRT.denote_entries d L h
   · intro dict n n' v h; exact BibRT.getItem_setItem_ci dict h v
-  · intro key name parts fs seen e s hs hd; exact BibRT.processFields_duplicate key name parts fs seen e s hs hd
-  · intro s key e e0 hw hs h0 hk; exact BibRT.addEntry_repeated s key e e0 hw hs h0 hk
+  · intro d L h
+    have hd := (C01_faithful_dups d L h).1
+    refine ⟨hd.2.1, ?_⟩
+    rw [hd.2.2]
+    exact BibRT.denoteD_entries (written d L)
 
 /-- concrete readings: a macro written in another case, a duplicate field and a repeated key
 that differ in case only -/
@@ -418,5 +528,241 @@ theorem C01_months_predefined_nonvacuous :
       [[("month".toList, "January".toList), ("m2".toList, "December-February".toList)]] ∧
     (parseBib "@a{k, month = jAn, m2 = DEC # \"-\" # feb}".toList false none).1.errs = [] := by
   decide +kernel
+
+/-- **A month name can be redefined.**  `@string` overrides whatever the name stood for before —
+the predefined month names included — for every later use, in any letter case, and leaves every
+other name alone: in the table after `@string{n = v}` a macro `k` expands to the expansion of `v`
+(in the table in force at the definition) if `k` equals `n` up to case, and to what it expanded to
+before otherwise.  (`denote` threads this table through the document: `stepMacros`.) -/
+theorem C01_months_redefinable (m : Macros) (n k : Str) (v : Value) :
+    expandPiece (stepMacros m (.strdef n v)) (.macro k) =
+      if lower n = lower k then expand m v else expandPiece m (.macro k) := by
+  simp only [expandPiece, stepMacros, BibRT.omap_get_set]
+  split <;> rfl
+
+/-- `jan` redefined (written `JAN`) between two uses: the first use reads the predefined
+`January`, every later one (any case) the new text; `feb` is untouched; nothing is reported -/
+theorem C01_months_redefinable_nonvacuous :
+    (parseBib "@a{k1, month = jan} @string{JAN = {Ja} # feb} @a{k2, month = Jan # \"-\" # jAN, m2 = feb}".toList
+        false none).1.db.entries.map (·.fields) =
+      [[("month".toList, "January".toList)],
+       [("month".toList, "JaFebruary-JaFebruary".toList), ("m2".toList, "February".toList)]] ∧
+    (parseBib "@a{k1, month = jan} @string{JAN = {Ja} # feb} @a{k2, month = Jan # \"-\" # jAN, m2 = feb}".toList
+        false none).1.errs = [] ∧
+    expandPiece (stepMacros initMacros (.strdef "JAN".toList [.lit "Ja".toList, .macro "feb".toList]))
+      (.macro "jan".toList) = "JaFebruary".toList := by
+  decide +kernel
+
+
+/-! ### keys are matched up to `str.lower()`, the Unicode mapping -/
+
+/-- **Key folding.**  Entry keys are the only identifiers of a `.bib` source that may contain
+non-ASCII letters (entry types, field names and macro names are NAMEs).  The reader compares them
+with `keyFold` = `str.lower()` character by character (`Model/UniCase.lean`, the interpreter's
+table; U+0130 and U+03A3 are outside its domain): it is idempotent, coarser than the ASCII folding
+used for all other identifiers, and equal to it on ASCII keys. -/
+theorem C01_key_folding :
+    (∀ k : Str, keyFold (keyFold k) = keyFold k) ∧
+    (∀ a b : Str, lower a = lower b → keyFold a = keyFold b) ∧
+    (∀ k : Str, (∀ c ∈ k, c.toNat < 128) → keyFold k = lower k) := by
+  refine ⟨fun k => lowerU_idem k, fun a b h => lowerU_of_lower h, fun k hk => ?_⟩
+  induction k with
+  | nil => rfl
+  | cons c r ih =>
+    have h1 : lowerUC c = lowerC c := lowerUC_ascii c (hk c List.mem_cons_self)
+    have h2 := ih (fun d hd => hk d (List.mem_cons_of_mem _ hd))
+    simp only [keyFold, lowerU_cons, lower_cons] at h2 ⊢
+    rw [h1, h2]
+
+/-- keys that differ in the case of non-ASCII letters are one key (`Äb` / `äB`, `ǅ` / `ǆ`): the
+second entry is reported and dropped (an instance of `C01_faithful_dups`); `ß` and `SS` are two keys -/
+theorem C01_key_folding_nonvacuous :
+    ((parseBib "@a{Äb, t = 1} @b{äB, t = 2} @c{ǅ} @c{ǆ}".toList false none).1.db.entries.map
+        (fun e => (e.key, e.fields)) = [("Äb".toList, [("t".toList, "1".toList)]), ("ǅ".toList, [])] ∧
+     (parseBib "@a{Äb, t = 1} @b{äB, t = 2} @c{ǅ} @c{ǆ}".toList false none).1.errs =
+        [⟨.repeatedEntry "äB".toList, none⟩, ⟨.repeatedEntry "ǆ".toList, none⟩]) ∧
+    ((parseBib "@a{ß} @a{SS} @a{ss}".toList false none).1.db.entries.map (·.key) = ["ß".toList, "SS".toList] ∧
+     (parseBib "@a{ß} @a{SS} @a{ss}".toList false none).1.errs = [⟨.repeatedEntry "ss".toList, none⟩]) ∧
+    keyFold "ÄB".toList ≠ lower "ÄB".toList := by
+  decide +kernel
+
+
+/-! ### the split points of a `#`-concatenation do not matter (`Lemmas/BibSplitPoints.lean`) -/
+
+section SplitPoints
+open Pybtex.BibRT (ValEq FieldEq CmdEq DocEq splitDoc₁ splitDoc₂ splitLayout₁ splitLayout₂ splitLayout₃)
+
+/-- **Independence of the split points of a value.**  `ValEq v w` says that two values expand to the
+same text under every macro table, i.e. they consist of the same macro names in the same order with
+the same literal text between them and differ at most in how that text is cut into `#`-pieces
+(`valEq_lit_split`: a literal may be cut anywhere, `valEq_lit_nil`: an empty literal may be inserted
+or dropped, `ValEq.append`: piecewise; a macro name is never exchanged for its text,
+`not_valEq_macro_lit`).  `DocEq` relates two documents command by command: same kinds, types, keys,
+field names (in the same order), macro names, comment and junk texts, and `ValEq` values.
+If two well-formed renderings are `DocEq` as written (`written` applies the case masks of the layout
+to entry types and field names), the reader returns the same database for both, in either error mode:
+the choice of split points — together with everything the two layouts choose, which necessarily
+differ since the values have different numbers of pieces — does not appear in the result. -/
+theorem C01_split_point_independent (d₁ d₂ : ADoc) (L₁ L₂ : Layout) (strict₁ strict₂ : Bool)
+    (h₁ : WF d₁ L₁) (h₂ : WF d₂ L₂) (he : DocEq (written d₁ L₁) (written d₂ L₂)) :
+    (parseBib (render d₁ L₁) strict₁ none).1.db = (parseBib (render d₂ L₂) strict₂ none).1.db :=
+  BibRT.split_point_independent d₁ d₂ L₁ L₂ strict₁ strict₂ h₁ h₂ he
+
+/-- The same for documents that may repeat field names and keys (`WFD`, continue mode): equal
+databases AND equal reports — which field is a duplicate and which entry is repeated is decided by
+names and keys, never by the cutting of a value. -/
+theorem C01_split_point_independent_dups (d₁ d₂ : ADoc) (L₁ L₂ : Layout)
+    (h₁ : WFD d₁ L₁) (h₂ : WFD d₂ L₂) (he : DocEq (written d₁ L₁) (written d₂ L₂)) :
+    (parseBib (render d₁ L₁) false none).1.db = (parseBib (render d₂ L₂) false none).1.db ∧
+    (parseBib (render d₁ L₁) false none).1.errs = (parseBib (render d₂ L₂) false none).1.errs :=
+  BibRT.split_point_independent_dups d₁ d₂ L₁ L₂ h₁ h₂ he
+
+/-- When the two documents themselves are `DocEq` (whatever case masks the two layouts put on entry
+types and field names), the databases agree up to the stored spelling of entry types, field names
+and role names (`ciEntry`), with equal preambles; and under layouts that spell these identifiers
+alike (e.g. no case masks, `plainIds`) `DocEq d₁ d₂` gives the hypothesis of
+`C01_split_point_independent` (`DocEq.written` for one layout; `written_plain`). -/
+theorem C01_split_point_independent_ci (d₁ d₂ : ADoc) (L₁ L₂ : Layout) (strict₁ strict₂ : Bool)
+    (h₁ : WF d₁ L₁) (h₂ : WF d₂ L₂) (he : DocEq d₁ d₂) :
+    ((parseBib (render d₁ L₁) strict₁ none).1.db.entries.map ciEntry =
+        (parseBib (render d₂ L₂) strict₂ none).1.db.entries.map ciEntry ∧
+      (parseBib (render d₁ L₁) strict₁ none).1.db.preamble =
+        (parseBib (render d₂ L₂) strict₂ none).1.db.preamble) ∧
+    (plainIds d₁ L₁ = true → plainIds d₂ L₂ = true → DocEq (written d₁ L₁) (written d₂ L₂)) :=
+  BibRT.split_point_independent_ci d₁ d₂ L₁ L₂ strict₁ strict₂ h₁ h₂ he
+
+/-- Non-vacuity: two different documents — `@string{jv = "Journal of V"}` against `"Journal " # "of V"`,
+a `@preamble` literal in one piece against three (one of them empty), and the field
+`journal = jv # " x " # jan` against `jv # " " # "x" # " " # jan` — and a third rendering that spells
+the literals in braces (`jv # { x } # jan`).  All three renderings are well-formed, the documents as
+written are `DocEq` (proved from the `ValEq` rules, for all macro tables), the three texts differ in
+their `#` structure, and the reader evaluated on them returns the same single entry. -/
+theorem C01_split_point_independent_nonvacuous :
+    splitDoc₁ ≠ splitDoc₂ ∧
+    WF splitDoc₁ splitLayout₁ ∧ WF splitDoc₂ splitLayout₂ ∧ WF splitDoc₁ splitLayout₃ ∧
+    DocEq (written splitDoc₁ splitLayout₁) (written splitDoc₂ splitLayout₂) ∧
+    DocEq (written splitDoc₁ splitLayout₃) (written splitDoc₂ splitLayout₂) ∧
+    render splitDoc₁ splitLayout₁ =
+      "@string{jv=\"Journal of V\"}\n@preamble{\"\\x \" # feb}\n@article{k, Journal = jv # \" x \" # jan}".toList ∧
+    render splitDoc₂ splitLayout₂ =
+      ("@string{jv=\"Journal \" # \"of V\"}\n@preamble{\"\\\" # \"x \" # \"\" # feb}\n" ++
+       "@article{k, Journal = jv # \" \" # \"x\" # \" \" # jan}").toList ∧
+    render splitDoc₁ splitLayout₃ =
+      "@string{jv={Journal of V}}\n@preamble{{\\x } # feb}\n@article{k, Journal = jv # { x } # jan}".toList ∧
+    -- the reader evaluated on the second text (what the theorem says about this instance)
+    (parseBib (render splitDoc₂ splitLayout₂) false none).1.db.entries.map (fun e => (e.key, e.fields)) =
+      [("k".toList, [("Journal".toList, "Journal of V x January".toList)])] ∧
+    (parseBib (render splitDoc₂ splitLayout₂) false none).1.db.preamble = ["\\x February".toList] :=
+  BibRT.split_point_independent_nonvacuous
+
+end SplitPoints
+
+/-! ### "values white-space-normalised" and "name lists split into persons", characterised
+
+`denote` applies `normalizeWs` and `splitNameList` (the functions of the reader model); the two
+theorems below say what these functions compute in terms that do not mention their definitions
+(`Lemmas/BibNorm.lean`: `wordsOf`, `IsNormalWs`, `noAnd0` / `noAndIn` / `NameOk0`, `joinSeps`;
+`Spec.isAndSep`, `depthAfter`). -/
+
+section Characterised
+open Pybtex.BibRT Pybtex.Spec
+
+/-- **White-space normalisation of values, characterised.**  `normalizeWs`
+(`textutils.normalize_whitespace`, applied by the reader to every field value, `@preamble` text
+and name list) is idempotent; its result has no leading and no trailing white space, no two
+adjacent white-space characters, and no white-space character other than the blank; the
+non-white-space characters of the text are kept, in order; a text with these four properties
+(`IsNormalWs`) is left unchanged, so the image of `normalizeWs` is exactly the set of such texts;
+the result is the list of words of the text (`wordsOf`: split at every one of the 29 white-space
+code points, drop empty pieces) joined by single blanks; and two texts have the same
+normalisation exactly when they have the same words. -/
+theorem C01_normalize_spec (s : Str) :
+    normalizeWs (normalizeWs s) = normalizeWs s ∧
+    (∀ c ∈ (normalizeWs s).head?, isWs c = false) ∧
+    (∀ c ∈ (normalizeWs s).getLast?, isWs c = false) ∧
+    (∀ a b, [a, b] <:+: normalizeWs s → ¬ (isWs a = true ∧ isWs b = true)) ∧
+    (∀ c ∈ normalizeWs s, isWs c = true → c = ' ') ∧
+    (normalizeWs s).filter (fun c => !isWs c) = s.filter (fun c => !isWs c) ∧
+    (IsNormalWs s → normalizeWs s = s) ∧
+    normalizeWs s = joinWith [' '] (wordsOf s) ∧
+    (∀ s', normalizeWs s = normalizeWs s' ↔ wordsOf s = wordsOf s') :=
+  BibRT.normalize_spec s
+
+/-- **The reference notion `wordsOf` is determined by three equations** (so the shape of its
+definition does not matter): no word in the empty text; a non-empty text without white space is
+one word; a white-space character separates.  Moreover every word is non-empty and free of white
+space, the words concatenated are the non-white-space characters of the text, and every list of
+such words is the word list of its blank-separated concatenation. -/
+theorem C01_wordsOf_spec :
+    wordsOf [] = [] ∧
+    (∀ w : Str, w ≠ [] → (∀ c ∈ w, isWs c = false) → wordsOf w = [w]) ∧
+    (∀ (u v : Str) (c : Char), isWs c = true → wordsOf (u ++ c :: v) = wordsOf u ++ wordsOf v) ∧
+    (∀ s : Str, ∀ w ∈ wordsOf s, w ≠ [] ∧ ∀ c ∈ w, isWs c = false) ∧
+    (∀ s : Str, (wordsOf s).flatten = s.filter (fun c => !isWs c)) ∧
+    (∀ ws : List Str, (∀ w ∈ ws, w ≠ [] ∧ ∀ c ∈ w, isWs c = false) → wordsOf (joinWith [' '] ws) = ws) :=
+  BibRT.wordsOf_spec
+
+/-- Non-vacuity: a value with leading / trailing / repeated white space of several kinds (blank,
+TAB, CR, LF, NO-BREAK SPACE U+00A0, EM SPACE U+2003) is normalised as expected, its words are as
+expected, the result is in normal form, and a text that is not in normal form exists. -/
+theorem C01_normalize_spec_nonvacuous :
+    normalizeWs "\u00a0 A \u2003\t{B}\r\n c ".toList = "A {B} c".toList ∧
+    wordsOf "\u00a0 A \u2003\t{B}\r\n c ".toList = ["A".toList, "{B}".toList, "c".toList] ∧
+    IsNormalWs "A {B} c".toList ∧ ¬ IsNormalWs "A  c".toList ∧ ¬ IsNormalWs "A\tc".toList :=
+  BibRT.normalize_spec_nonvacuous
+
+/-- **Name lists are split at the level-0 separators, and only there.**  `splitNameList`
+(`split_tex_string(value, ' [Aa][Nn][Dd] ')`, applied by the reader to the normalised value of
+every `author` / `editor` field) satisfies, for every spelling `w` of the separator (a blank,
+`a`/`A`, `n`/`N`, `d`/`D`, a blank):
+
+1. a braced group with brace-balanced body is one name, whatever the body contains (separator
+   matches included);
+2. a non-empty brace-balanced text without separator match at brace level 0 (`noAnd0`: no match
+   starts at a level-0 position of `a␣`) is one name, stripped;
+3. *junction*: such a text `a` (possibly empty) followed by `w` and ANY non-empty text `b` (with
+   or without separators, braces balanced or not) is split off: the result is `strip a` followed
+   by the names of `b`;
+4. the same when nothing follows `w`: a last, empty name;
+5. the special case of a brace-free `a` (`noAndIn a`: no suffix of `a␣` that starts inside `a`
+   begins with a separator match — `noAndIn_iff`);
+6. hence a name list written as names `a₀ w₁ a₁ … wₙ aₙ` with names as in 2. is split into
+   exactly `strip a₀, …, strip aₙ`. -/
+theorem C01_split_names_spec :
+    (∀ body : Str, depthAfter 0 body = some 0 →
+      splitNameList ('{' :: body ++ ['}']) = ['{' :: body ++ ['}']]) ∧
+    (∀ a : Str, a ≠ [] → depthAfter 0 a = some 0 → noAnd0 a = true → splitNameList a = [strip a]) ∧
+    (∀ a w b : Str, depthAfter 0 a = some 0 → noAnd0 a = true → isAndSep w = true → b ≠ [] →
+      splitNameList (a ++ w ++ b) = strip a :: splitNameList b) ∧
+    (∀ a w : Str, depthAfter 0 a = some 0 → noAnd0 a = true → isAndSep w = true →
+      splitNameList (a ++ w) = [strip a, []]) ∧
+    (∀ a w b : Str, (∀ c ∈ a, c ≠ '{' ∧ c ≠ '}') → noAndIn a = true → isAndSep w = true → b ≠ [] →
+      splitNameList (a ++ w ++ b) = strip a :: splitNameList b) ∧
+    (∀ (a : Str) (r : List (Str × Str)), NameOk0 a → (∀ x ∈ r, isAndSep x.1 = true ∧ NameOk0 x.2) →
+      splitNameList (joinSeps a r) = strip a :: r.map fun x => strip x.2) :=
+  BibRT.split_names_spec
+
+/-- Non-vacuity and sharpness: the hypotheses of the name-list clause hold for the three names of
+`{Barnes and Noble} AND Knuth, Donald E. and others` (a group that contains a separator match,
+two separator spellings) and the reader's split is the expected one; `noAndIn` cannot be dropped
+(`x and` + ` and ` + `y` gives `x`, `and y`); `b ≠ []` cannot be dropped (`x and ` gives `x` and an
+empty name, the empty text gives no name); balance cannot be dropped (an unclosed group swallows
+the separator). -/
+theorem C01_split_names_spec_nonvacuous :
+    (NameOk0 "{Barnes and Noble}".toList ∧ NameOk0 "Knuth, Donald E.".toList ∧ NameOk0 "others".toList ∧
+      isAndSep " AND ".toList = true ∧ isAndSep " and ".toList = true ∧
+      joinSeps "{Barnes and Noble}".toList
+          [(" AND ".toList, "Knuth, Donald E.".toList), (" and ".toList, "others".toList)] =
+        "{Barnes and Noble} AND Knuth, Donald E. and others".toList) ∧
+    splitNameList "{Barnes and Noble} AND Knuth, Donald E. and others".toList =
+      ["{Barnes and Noble}".toList, "Knuth, Donald E.".toList, "others".toList] ∧
+    (noAndIn "x and".toList = false ∧
+      splitNameList ("x and".toList ++ " and ".toList ++ "y".toList) = ["x".toList, "and y".toList]) ∧
+    (splitNameList ("x".toList ++ " and ".toList ++ []) = ["x".toList, []] ∧ splitNameList [] = []) ∧
+    (noAnd0 "{x".toList = true ∧
+      splitNameList ("{x".toList ++ " and ".toList ++ "y".toList) = ["{x and y".toList]) :=
+  BibRT.split_names_spec_nonvacuous
+
+end Characterised
 
 end Pybtex.Props
